@@ -88,7 +88,7 @@ func cmdCheck(args []string) int {
 	defer cleanupQueries()
 	db := loadContracts(p)
 	loadSec := time.Since(t0).Seconds()
-	timeout := 10 * time.Second
+	timeout := 20 * time.Second
 	needAgree := 1
 	if *tier == "thorough" {
 		timeout = 60 * time.Second
@@ -116,7 +116,9 @@ func cmdCheck(args []string) int {
 	sem := make(chan struct{}, 4)
 	for i, key := range roots {
 		var res *UnitResult
-		if strings.HasPrefix(key, "lemma:") {
+		if strings.HasPrefix(key, "framelemma:") {
+			res = encodeFrameLemma(p, db, strings.TrimPrefix(key, "framelemma:"))
+		} else if strings.HasPrefix(key, "lemma:") {
 			encMu.Lock()
 			res = encodeLemma(p, db, strings.TrimPrefix(key, "lemma:"))
 			encMu.Unlock()
